@@ -412,6 +412,54 @@ fn check_symlink2(naming: Option<NamingK>, mode: ModeK, starttime: bool, word: &
 
 // ---------------------------------------------------------------- units
 
+// ---------------------------------------------------------------- (B) builder call order
+
+/// The names do not depend on the order in which the builder methods are called: with rotation a
+/// FileSpec whose start-time setting was left at its default yields names without start time,
+/// whether `rotate()` is called before or after `log_to_file()`.
+fn check_builder_order(naming: NamingK) -> Result<usize, (String, String)> {
+    use flexi_logger::{Cleanup, Criterion, ErrorChannel, LogSpecification, Logger};
+    let mut seen: Vec<Vec<String>> = Vec::new();
+    for rotate_first in [false, true] {
+        let env = Env::new("c16b");
+        env.enter();
+        let fs = FileSpec::default().directory(&env.dir).basename("app");
+        let lb = Logger::with(LogSpecification::trace()).format(lg::payload_format).error_channel(ErrorChannel::File(env.err.clone()));
+        let lb = if rotate_first {
+            lb.rotate(Criterion::Size(LIMIT), naming.naming(), Cleanup::Never).log_to_file(fs)
+        } else {
+            lb.log_to_file(fs).rotate(Criterion::Size(LIMIT), naming.naming(), Cleanup::Never)
+        };
+        let (logger, handle) = lb.build().map_err(|e| ("build-error".to_string(), e.to_string()))?;
+        for i in 0..3 {
+            lg::log_info(&*logger, &lg::payload(0, i, 19));
+            env.observe();
+        }
+        handle.shutdown();
+        drop(logger);
+        drop(handle);
+        env.leave();
+        let parts = NameParts {
+            basename: Some("app".into()),
+            discriminant: None,
+            suffix: Some("log".into()),
+            use_timestamp: false,
+        };
+        let scan = family::scan(&env.dir, &parts, None, Some(naming), &[]);
+        if !scan.foreign.is_empty() {
+            return Err((
+                "name-grammar".into(),
+                format!("rotate() called {} log_to_file(), start-time setting of the FileSpec left at its default: created {:?}, which do not parse as app_<infix>.log (with rotation the start time is not part of the name unless asked for)", if rotate_first { "before" } else { "after" }, scan.foreign),
+            ));
+        }
+        seen.push(scan.names());
+    }
+    if seen[0] != seen[1] {
+        return Err(("builder-order".into(), format!("names depend on the order of the builder calls: log_to_file().rotate() gives {:?}, rotate().log_to_file() gives {:?}", seen[0], seen[1])));
+    }
+    Ok(seen[0].len())
+}
+
 fn n_units() -> usize {
     ncases().len().div_ceil(16)
 }
@@ -488,6 +536,18 @@ fn run_unit(tier: &str, unit: usize, out: &mut Out) {
     }
     let u = unit - n_units();
     if u < p_units() {
+        for naming in NG {
+            out.evaluations += 1;
+            match isolated(move || check_builder_order(naming)) {
+                Ok(n) => {
+                    if n >= 2 {
+                        out.nontrivial(&("B", naming.short()));
+                    }
+                    out.outcome("builder-order-ok");
+                }
+                Err((clause, detail)) => out.violation(Violation::new(&clause, format!("builder-order/{}", naming.short()), detail, json!({"kind": "B", "naming": naming.short()}))),
+            }
+        }
         for (i, p) in PATHS.iter().enumerate() {
             for rotate in [false, true] {
                 out.evaluations += 1;
@@ -574,6 +634,11 @@ fn replay(case: &Value) -> Vec<Violation> {
             let c = ncases()[idx.min(ncases().len() - 1)].clone();
             println!("replay C16 names: {c:?}");
             isolated(move || check_names(&c))
+        }
+        Some("B") => {
+            let naming = NG.into_iter().find(|n| Some(n.short()) == case["naming"].as_str()).unwrap_or(NamingK::Numbers);
+            println!("replay C16 builder order: {naming:?}");
+            isolated(move || check_builder_order(naming))
         }
         Some("P") => {
             let p = PATHS[idx.min(PATHS.len() - 1)].to_string();
